@@ -88,6 +88,9 @@ func locSxOf(l segment.Location) sx.V {
 type reuse struct {
 	pl segment.PostingsList
 	it segment.PostingsIterator
+	// the subset bitmap the caller handed to ReplaceActual earlier: it stays the caller's
+	callerBM   *roaring.Bitmap
+	callerWant []uint32
 }
 
 // runIter executes one run against the implementation; also checks Count / ActualBitmap / DocNum1Hit.
@@ -150,8 +153,17 @@ func runIter(seg segment.Segment, field, term string, hits sx.V, r iterRun, ru *
 		if len(hits.L) == 1 && abm == nil {
 			onehit = true // single-hit encoding whose only document is excluded
 		}
+		if ru != nil && ru.callerBM != nil {
+			if got := ru.callerBM.ToArray(); fmt.Sprint(got) != fmt.Sprint(ru.callerWant) {
+				return sx.V{}, onehit, fmt.Sprintf("the bitmap the caller passed to ReplaceActual in an earlier step held %v; after this step recycled that iterator it holds %v (the caller's bitmap was written to)", ru.callerWant, got)
+			}
+		}
 		if r.replace && abm != nil {
-			oi.ReplaceActual(bitmapOf(r.repl))
+			sub := bitmapOf(r.repl)
+			oi.ReplaceActual(sub)
+			if ru != nil {
+				ru.callerBM, ru.callerWant = sub, sub.ToArray()
+			}
 		}
 	}
 	var outs []sx.V
@@ -397,6 +409,10 @@ func checkC07(c *ctx) {
 	if !longLists(c) {
 		return
 	}
+	if bad := interleavedRecycled(c); bad != "" {
+		c.Violation("C07 "+bad, false)
+		return
+	}
 	// ---------- (B) random larger instances, (C) single-hit through merges, (D) reuse ----------
 	rounds := c.n(60, 1500)
 	for i := 0; i < rounds; i++ {
@@ -555,6 +571,70 @@ func longLists(c *ctx) bool {
 		e.close()
 	}
 	return true
+}
+
+// interleavedRecycled: (F) two iterator objects that each served a term without locations (locations
+// requested) are recycled for two terms with locations and read alternately.
+func interleavedRecycled(c *ctx) string {
+	var b zh.Batch
+	for d := 0; d < 8; d++ {
+		doc := zh.Doc{Fields: []zh.Field{zh.IDField(fmt.Sprintf("i%02d", d)),
+			{Name: "nl", Len: 2, Toks: []zh.Tok{{Term: "p", Freq: 1}, {Term: "q", Freq: 2}}},
+			{Name: "wl", Len: 2, TV: true, Toks: []zh.Tok{
+				{Term: "u", Freq: 1, Locs: []zh.Loc{{Pos: uint64(d + 1), Start: uint64(d), End: uint64(d + 2)}}},
+				{Term: "v", Freq: 2, Locs: []zh.Loc{{Pos: uint64(50 + d), Start: uint64(100 + d), End: uint64(103 + d)}, {Pos: uint64(60 + d), Start: uint64(200 + d), End: uint64(201 + d)}}}}}}}
+		b = append(b, doc)
+	}
+	for _, opened := range []bool{false, true} {
+		e, err := newBuilt(c, b, []uint32{2, 1026}[c.R.Intn(2)], opened)
+		if err != nil {
+			return "build failed: " + err.Error()
+		}
+		dn, err := e.seg.Dictionary("nl")
+		must(err)
+		dw, err := e.seg.Dictionary("wl")
+		must(err)
+		drain := func(d segment.TermDictionary, term string) segment.PostingsIterator {
+			pl, err := d.PostingsList([]byte(term), nil, nil)
+			must(err)
+			it := pl.Iterator(true, true, true, nil)
+			for {
+				p, err := it.Next()
+				must(err)
+				if p == nil {
+					return it
+				}
+			}
+		}
+		it1, it2 := drain(dn, "p"), drain(dn, "q")
+		plu, err := dw.PostingsList([]byte("u"), nil, nil)
+		must(err)
+		plv, err := dw.PostingsList([]byte("v"), nil, nil)
+		must(err)
+		iu, iv := plu.Iterator(true, true, true, it1), plv.Iterator(true, true, true, it2)
+		hu, hv := hitsOf(e.spec, "wl", "u"), hitsOf(e.spec, "wl", "v")
+		r := iterRun{f: true, n: true, l: true}
+		for k := 0; k < len(hu.L); k++ {
+			pu, err := iu.Next()
+			if err != nil {
+				return "iterator error: " + err.Error()
+			}
+			pv, err := iv.Next()
+			if err != nil {
+				return "iterator error: " + err.Error()
+			}
+			if gu := postingSx(pu, r); !sx.Equal(gu, hu.L[k]) {
+				return fmt.Sprintf("%s segment: two iterators, each recycled from one that served a term without locations, read alternately: term \"u\" hit %d is %s, want %s", e.prov, k, gu.Pretty(), hu.L[k].Pretty())
+			}
+			if gv := postingSx(pv, r); !sx.Equal(gv, hv.L[k]) {
+				return fmt.Sprintf("%s segment: two iterators, each recycled from one that served a term without locations, read alternately: term \"v\" hit %d is %s, want %s", e.prov, k, gv.Pretty(), hv.L[k].Pretty())
+			}
+		}
+		e.close()
+		c.Count("interleaved_recycled_iterator_runs")
+	}
+	c.Case("interleaved-recycled", true)
+	return ""
 }
 
 func pickTerm(c *ctx, spec sx.V) (string, string) {
